@@ -72,8 +72,9 @@ func mkBLS[
 ) blsFlavour {
 	type sigT = *bls.Signature[SG, SGFE, PK, PKFE, E, S]
 	type keyMat struct {
-		shards map[sharing.ID]*boldyreva02.Shard[PK, PKFE, SG, SGFE, E, S]
-		sk     *big.Int // reconstructed by ref/linalg from ALL dealt shares
+		shards map[sharing.ID]*boldyreva02.Shard[PK, PKFE, SG, SGFE, E, S] // as decoded from their CBOR encoding
+		pm     *boldyreva02.PublicMaterial[PK, PKFE, SG, SGFE, E, S]       // public material as an outside aggregator receives it (decoded)
+		sk     *big.Int                                                    // reconstructed by ref/linalg from ALL dealt shares
 	}
 	q := conv.BLS12381R
 	getKeys := func(s *structure, a catalog.IDAssignment, kg proto.C01Keygen) (*keyMat, error) {
@@ -90,7 +91,18 @@ func mkBLS[
 			if err != nil {
 				return nil, err
 			}
-			return &keyMat{sh, sk}, nil
+			// what the parties and an outside aggregator work with went through the wire format once
+			var pm *boldyreva02.PublicMaterial[PK, PKFE, SG, SGFE, E, S]
+			for _, id := range a.IDs {
+				if sh[id] == nil {
+					return nil, fmt.Errorf("no shard for party %d", id)
+				}
+				sh[id] = proto.C01Wire(sh[id])
+				if pm == nil {
+					pm = proto.C01Wire(sh[id].PublicKeyMaterial())
+				}
+			}
+			return &keyMat{sh, pm, sk}, nil
 		})
 	}
 	// the reference point [sk]*H_dst(msg); H from the library, checked to lie in the r-torsion subgroup
@@ -230,7 +242,7 @@ func mkBLS[
 				label := fmt.Sprintf("%s|%s|%s|%s|%s|q%b|m%d", v.Name, mode.name, s.e.Name, a.Name, kg, qm, mi)
 				cw := fmt.Sprintf("%s quorum=%s (%s) msg=%s", where, idsString(quorum), kind, msgNames[mi])
 				x.Case(label)
-				out, subErr := proto.C01BoldyrevaSign(v, km.shards, quorum, raw, mode.alg, seed, label, subs, engine.Thorough() || mode.alg == bls.Basic && a.Name == "ord")
+				out, subErr := proto.C01BoldyrevaSign(v, km.shards, quorum, raw, mode.alg, seed, label, subs, km.pm, engine.Thorough() || mode.alg == bls.Basic && a.Name == "ord")
 				if out.Refused != nil {
 					x.Failf(fk+"/refused-qualified", "%s: a cosigner constructor refused a QUALIFIED quorum\n    errors: %s", cw, errsString(out.Errs))
 					continue
@@ -325,7 +337,7 @@ func mkBLS[
 			}
 			if accepted == len(set) {
 				// no constructor refused: then the aggregator must
-				out, _ := proto.C01BoldyrevaSign(v, km.shards, set, message(1), mode.alg, seed, label, nil, false)
+				out, _ := proto.C01BoldyrevaSign(v, km.shards, set, message(1), mode.alg, seed, label, nil, km.pm, false)
 				if len(out.Sigs) > 0 {
 					x.Failf(fk+"/unqualified-quorum-signs", "%s: the UNQUALIFIED party set %s obtained a signature", where, idsString(set))
 				} else {
